@@ -240,6 +240,64 @@ def r_timestamp_map(chk, P, tier):
             w = want(x // unit, (x % unit) * (NS // unit))
             got = parts(show(fold(U + fn, [("const", x)])))
             expect("%s (%s)" % (fn, "accepted" if w else "refused"), x, got, w)
+    # SystemTime interop: the std calls are kept symbolic. From<SystemTime>: duration_since(UNIX_EPOCH) is bound to Ok / Err and the (as_secs, subsec_nanos) of the resulting
+    # Duration to each value; expected: the instant that many seconds and nanoseconds after / before the epoch.
+    fs = '<datetime::DateTime<offset::utc::Utc> as std::convert::From<std::time::SystemTime>>::from'
+    roles = {}
+    for p_ in Sym(P, fs).paths():
+        for t in [c[1] for c in p_.conds] + ([p_.ret] if p_.ret else []):
+            for x in walk_terms(t):
+                if x[0] == "call" and isinstance(x[1], str) and "std::time::" in x[1] and x[1].split("::")[-1] in ("as_secs", "subsec_nanos", "subsec_micros", "subsec_millis", "as_millis", "as_micros", "as_nanos", "duration_since"):
+                    roles[pp(x)] = x[1].split("::")[-1]
+    if not {"as_secs", "duration_since"} <= set(roles.values()) and not {"duration_since"} <= set(roles.values()):
+        chk.assume("MAP.timestamps: From<SystemTime> no longer reads duration_since / as_secs / subsec_nanos: idiom not recognised, conversion undecided")
+    else:
+        for before in (False, True):
+            for secs in (0, 1, 59, 60, 86399, 86400, 4102444800):
+                for ns in (0, 1, 999, 1000, 500000000, 999999001, NS - 1):
+                    if before and secs == 0 and ns == 0:
+                        continue
+                    bind = {}
+                    for k, role in roles.items():
+                        bind[k] = (("agg", "adt", "std::result::Result", "Err" if before else "Ok", (("opaque", "duration", ()),), 1 if before else 0) if role == "duration_since"
+                                   else {"as_secs": secs, "subsec_nanos": ns, "subsec_micros": ns // 1000, "subsec_millis": ns // 10**6, "as_millis": secs * 1000 + ns // 10**6,
+                                         "as_micros": secs * 10**6 + ns // 1000, "as_nanos": secs * NS + ns}[role])
+                    total = (secs * NS + ns) * (-1 if before else 1)
+                    try:
+                        got = parts(show(fo.call(fs, [("arg", 1)], bind=bind)))
+                    except Unknown as e:
+                        got = "unknown: %s" % e
+                    expect("From<SystemTime> (%s the epoch)" % ("before" if before else "after"), (secs, ns), got, want(total // NS, total % NS))
+    # From<DateTime<Tz>> for SystemTime: UNIX_EPOCH +/- Duration::new(secs, nanos) with the operators and the Duration constructor symbolic
+    fd = [n for n in P.fns if n.endswith("From<datetime::DateTime<Tz>> for std::time::SystemTime>::from") and P.has(n)]
+    if fd:
+        fo2 = Folder(P, max_depth=14, opaque=lambda n: n.endswith("Duration::new") or n in ("<std::time::SystemTime as std::ops::Add<std::time::Duration>>::add", "<std::time::SystemTime as std::ops::Sub<std::time::Duration>>::sub"))
+
+        def st_value(v):
+            """signed nanoseconds relative to UNIX_EPOCH of a folded chain of symbolic +/- Duration::new(s, n)"""
+            if isinstance(v, tuple) and v[0] == "opaque" and v[1].endswith(("::add", "::sub")):
+                base = st_value(v[2])
+                d = v[3]
+                if base is None or not (isinstance(d, tuple) and d[0] == "opaque" and d[1].endswith("Duration::new")):
+                    return None
+                n = d[2] * NS + d[3]
+                return base + (n if v[1].endswith("::add") else -n)
+            if isinstance(v, str) and "UNIX_EPOCH" in v:
+                return 0
+            if isinstance(v, tuple) and v and v[0] == ("adt", "std::time::SystemTime") and "('tv_sec', 0)" in repr(v) and "('0', 0)" in repr(v):
+                return 0        # the constant UNIX_EPOCH as the compiler evaluated it
+            return None
+        for secs in (-86401, -86400, -61, -60, -1, 0, 1, 59, 86400, 4102444800, ts_min, ts_max):
+            for ns in (0, 1, NS - 1, NS, NS + 1, 2 * NS - 1):
+                w = want(secs, ns)
+                if w is None:
+                    continue
+                dtv = fold(U + "from_timestamp", [("const", secs), ("const", ns)])
+                try:
+                    got = st_value(show(fo2.call(fd[0], [dtv[4][0]])))
+                except Unknown as e:
+                    got = "unknown: %s" % e
+                expect("From<DateTime> for SystemTime", (secs, ns), got, secs * NS + ns)
     for _ in range(n_ok[0]):
         chk.ok("value")
     for cls, (a, got, w) in sorted(bad.items()):
